@@ -101,6 +101,7 @@ func (w *World) begin(kind, method, sid string) (env *Env, idx int, fault string
 		s.Point(kind+":"+method, sid)
 		step = s.Steps()
 	}
+	w.CheckDrift("before " + kind + ":" + method)
 	env = w.CurEnv()
 	idx = len(env.Calls)
 	fault = env.Faults[idx]
